@@ -41,6 +41,16 @@ if os.environ.get("VERIF_COV"):
         VARIANTS[_v] = (_cc, _cf + " --coverage", (_lf + " --coverage").strip())
 
 
+class TreeViolation(Exception):
+    """Raised while a check prepares itself when what fails IS the property (C02: the compiler cannot compile its own sources, or emits
+    malformed IL for them, so no stage 2 exists): reported as a violation with a replay, not as a machinery error."""
+
+    def __init__(self, msg, case):
+        Exception.__init__(self, msg)
+        self.msg = msg
+        self.case = case
+
+
 class BuildError(Exception):
     pass
 
